@@ -7,7 +7,7 @@ CHECKS = {
  "C01": ("exploration", "Differential monitor: millions of hostile-operand field operations per run (all prime/scalar/binary field types, raw redundant representations, solved operands on carry/fold/borrow boundaries, chains, representation-independence batches) executed by the real library in 3 (quick) / 6 (thorough) backend builds and compared with Python big-integer / GF(2)-polynomial arithmetic. Held = no disagreement on the executions observed; boundary classes observed are listed in the evidence.",
          "Python int arithmetic; moduli constants (cross-checked against the library's MINUS_ONE at start); the host CPU executing the same code paths as a user's build", "differential testing against an independent big-integer oracle under hostile operand generation", "4 C01"),
 
- "C02": ("exploration", "Dynamic taint tracking of the optimized machine code: every listed entry point (field/scalar ops incl. division, sqrt, Legendre, batch inversion, decoders, selects and lookups with secret control words; group ops, scalar multiplications, decoding of secret bytes; key generation, signing, ECDH, X25519/X448, hashes on secret data) runs under valgrind memcheck with the secret inputs marked undefined; every conditional jump or memory address depending on a secret bit is reported and must be either a documented source-level declassification (ct_declassified.json) or a violation. A built-in leaky self-test must be detected or the run is inconclusive. Quick: default build; thorough: all six builds.",
+ "C02": ("exploration", "Dynamic taint tracking of the optimized machine code: every listed entry point (field/scalar ops incl. division, sqrt, Legendre, batch inversion, decoders, selects and lookups with secret control words; group ops, scalar multiplications, decoding of secret bytes; key generation, signing, ECDH, X25519/X448, hashes on secret data) runs under valgrind memcheck with the secret inputs marked undefined; every conditional jump or memory address depending on a secret bit is reported and must be either a documented source-level declassification (ct_declassified.json) or a violation. A built-in leaky self-test must be detected or the run is inconclusive. Quick: default and w32 builds; thorough: all six builds.",
          "memcheck's definedness propagation; only the listed entry points and the pinned compiler/flags are covered; instruction-latency channels are out of scope", "valgrind memcheck as secret-taint tracker (ctgrind technique) on the release binary", "4 C02"),
  "C03": ("exploration", "Chains (1..12 ops) of +,-,neg,double,xdouble,*u64 on the nine groups with exceptional operands (neutral, P+P, P+(-P), low/mixed-order, re-represented points, results re-used) executed by the library; every intermediate encoding and equals/isneutral mask compared with the affine textbook law of independent reference models.",
          "reference group laws (validated on the repository's third-party KATs)", "differential testing against independent affine group-law models", "4 C03"),
